@@ -554,46 +554,51 @@ func checkC02Raw(c c02RawCase) error {
 
 func init() { register("c02raw", checkC02Raw) }
 
+func genC02RawCase(rt *rapid.T) c02RawCase {
+	ch := &gen.RChooser{T: rt, Free: true}
+	o := peerHdrOpts()
+	o.MaxEntries = 12
+	alg := rapid.SampledFrom([]int64{-7, -8, -37, -65535, 7}).Draw(rt, "alg")
+	o.Alg = &alg
+	c := c02RawCase{Alg: alg, Kind: rapid.SampledFrom([]refcose.Kind{refcose.KSign1, refcose.KSign}).Draw(rt, "kind")}
+	c.Payload = gen.Blob(rt, "payload", gen.BoundaryLen(rt, "plen", false))
+	if c.Payload == nil {
+		c.Payload = rc.Hex{}
+	}
+	c.External = gen.Blob(rt, "ext", rapid.IntRange(0, 40).Draw(rt, "elen"))
+	wrap := func(m rc.Val) []byte {
+		var content []byte
+		if len(m.M) > 0 {
+			content = rc.Encode(m, ch)
+		}
+		return rc.Encode(rc.Bytes(content), ch)
+	}
+	c.Framed = rapid.IntRange(0, 2).Draw(rt, "framed") == 0
+	c.Annotated = rapid.IntRange(0, 2).Draw(rt, "annotated") == 0
+	if c.Kind == refcose.KSign1 {
+		c.Prot, _ = gen.Headers(rt, o)
+		c.RawProt = wrap(c.Prot)
+		if rapid.IntRange(0, 3).Draw(rt, "empty-raw") == 0 {
+			// the empty bucket in its shortest spelling, next to a map that names the algorithm
+			c.RawProt = rc.Hex{0x40}
+		}
+	} else {
+		bo := o
+		bo.Alg = nil
+		c.Prot, _ = gen.Headers(rt, bo)
+		c.RawProt = wrap(c.Prot)
+		c.SigMap, _ = gen.Headers(rt, o)
+		c.SigProt = wrap(c.SigMap)
+		c.ViaMessage = rapid.Bool().Draw(rt, "via-message")
+		c.MirrorMap = rapid.Bool().Draw(rt, "mirror-map")
+	}
+	return c
+}
+
 func TestC02_Raw(t *testing.T) {
 	begin(t, "C02", "raw")
 	prop(t, func(rt *rapid.T) {
-		ch := &gen.RChooser{T: rt, Free: true}
-		o := peerHdrOpts()
-		o.MaxEntries = 12
-		alg := rapid.SampledFrom([]int64{-7, -8, -37, -65535, 7}).Draw(rt, "alg")
-		o.Alg = &alg
-		c := c02RawCase{Alg: alg, Kind: rapid.SampledFrom([]refcose.Kind{refcose.KSign1, refcose.KSign}).Draw(rt, "kind")}
-		c.Payload = gen.Blob(rt, "payload", gen.BoundaryLen(rt, "plen", false))
-		if c.Payload == nil {
-			c.Payload = rc.Hex{}
-		}
-		c.External = gen.Blob(rt, "ext", rapid.IntRange(0, 40).Draw(rt, "elen"))
-		wrap := func(m rc.Val) []byte {
-			var content []byte
-			if len(m.M) > 0 {
-				content = rc.Encode(m, ch)
-			}
-			return rc.Encode(rc.Bytes(content), ch)
-		}
-		c.Framed = rapid.IntRange(0, 2).Draw(rt, "framed") == 0
-		c.Annotated = rapid.IntRange(0, 2).Draw(rt, "annotated") == 0
-		if c.Kind == refcose.KSign1 {
-			c.Prot, _ = gen.Headers(rt, o)
-			c.RawProt = wrap(c.Prot)
-			if rapid.IntRange(0, 3).Draw(rt, "empty-raw") == 0 {
-				// the empty bucket in its shortest spelling, next to a map that names the algorithm
-				c.RawProt = rc.Hex{0x40}
-			}
-		} else {
-			bo := o
-			bo.Alg = nil
-			c.Prot, _ = gen.Headers(rt, bo)
-			c.RawProt = wrap(c.Prot)
-			c.SigMap, _ = gen.Headers(rt, o)
-			c.SigProt = wrap(c.SigMap)
-			c.ViaMessage = rapid.Bool().Draw(rt, "via-message")
-			c.MirrorMap = rapid.Bool().Draw(rt, "mirror-map")
-		}
+		c := genC02RawCase(rt)
 		stats.Eval()
 		judge(rt, "c02raw", c, checkC02Raw)
 	})
@@ -676,4 +681,65 @@ func TestC02_EnvelopeReturned(t *testing.T) {
 		stats.Eval()
 		judge(rt, "c02env", c, checkC02Envelope)
 	})
+}
+
+// TestC02_RawWidths: caller-supplied protected items of every length on and around the head boundaries - up to
+// 2^24 bytes - behind every permitted head width: the structure handed to the signer carries the content behind the
+// shortest head.
+type c02WidthCase struct {
+	Len   int  `json:"len"`
+	Width int  `json:"width"` // argument bytes of the bstr head: 0 (length in the initial byte), 1, 2, 4, 8
+	Sign  bool `json:"sign_message,omitempty"`
+}
+
+func checkC02Width(c c02WidthCase) error {
+	content := bytes.Repeat([]byte{0x5a}, c.Len)
+	raw := append(rc.Head(2, uint64(c.Len), c.Width), content...)
+	spy := &bridge.SpySigner{Alg: cose.AlgorithmEdDSA}
+	payload := []byte("p")
+	var want []byte
+	if !c.Sign {
+		m := &cose.Sign1Message{Headers: cose.Headers{RawProtected: raw, Protected: cose.ProtectedHeader{int64(1): cose.AlgorithmEdDSA}}, Payload: payload}
+		if err := m.Sign(refcose.NewEntropy(nil), nil, spy); err != nil {
+			return finding("refused/raw-width", "%+v: Sign refuses a well-formed protected item: %v", c, err)
+		}
+		want = refcose.SigStructure1(content, nil, payload)
+	} else {
+		s := &cose.Signature{Headers: cose.Headers{RawProtected: raw, Protected: cose.ProtectedHeader{int64(1): cose.AlgorithmEdDSA}}}
+		m := &cose.SignMessage{Headers: cose.Headers{RawProtected: append([]byte{}, raw...)}, Payload: payload, Signatures: []*cose.Signature{s}}
+		if err := m.Sign(refcose.NewEntropy(nil), nil, spy); err != nil {
+			return finding("refused/raw-width", "%+v: SignMessage.Sign refuses well-formed protected items: %v", c, err)
+		}
+		want = refcose.SigStructure(content, content, nil, payload)
+	}
+	if got := spy.Last(); !bytes.Equal(got, want) {
+		n := 40
+		return finding("tbs-mismatch/raw-width", "%+v: the structure handed to the signer differs from the RFC structure (first bytes)\n got=%x\nwant=%x", c, got[:min(n, len(got))], want[:min(n, len(want))])
+	}
+	stats.Class(fmt.Sprintf("raw-width/%d", c.Width))
+	return nil
+}
+
+func init() { register("c02width", checkC02Width) }
+
+func TestC02_RawWidths(t *testing.T) {
+	begin(t, "C02", "rawwidths")
+	n := 0
+	for _, l := range []int{0, 1, 23, 24, 25, 255, 256, 257, 65535, 65536, 65537, 1 << 24, 1<<24 + 1} {
+		for _, w := range []int{0, 1, 2, 4, 8} {
+			if (w == 0 && l > 23) || (w == 1 && l > 255) || (w == 2 && l > 65535) {
+				continue
+			}
+			for _, sm := range []bool{false, true} {
+				if sm && l > 65537 && w != 8 {
+					continue
+				}
+				n++
+				stats.Eval()
+				stats.NTBytes([]byte(fmt.Sprint(l, w, sm)))
+				judge(t, "c02width", c02WidthCase{Len: l, Width: w, Sign: sm}, checkC02Width)
+			}
+		}
+	}
+	stats.ExhaustivePart("protected item length x head width", n)
 }
